@@ -156,7 +156,10 @@ def build_specs(tmp, only=None):
         lfiles = flip_guppi(gfiles, d)
         specs["guppi-lsb"] = Spec(
             "guppi-lsb", lambda: pb.readers.GUPPIRawReader(lfiles),
-            lambda: baseband.open(gfiles, "rs", format="guppi", squeeze=False), lambda r: r.transpose(0, 2, 1).conj(),
+            lambda: baseband.open(gfiles, "rs", format="guppi", squeeze=False),
+            # OBSBW < 0: file channel i sits at OBSFREQ - OBSBW/2 + (i + 1/2) CHAN_BW, i.e. channels DESCEND in frequency and each is
+            # spectrally inverted; the signal's labels ascend, so the channel axis is flipped and the samples conjugated
+            lambda r: r.transpose(0, 2, 1)[:, ::-1].conj(),
             dict(cls="DualPolarizationSignal", sample_rate=F(3125000), length=32768, dtype=np.complex64, center_freq=F("344.1875") * 10 ** 6,
                  pol_type="linear", freq_align="center", nchan=4), frame=1024, file_len=8192)
     if want("stokes-lsb"):
